@@ -117,7 +117,7 @@ func httpEngSum(g []int) time.Duration {
 type httpEngRoute struct {
 	id               int
 	domain, loc, usr string
-	respKeys         map[string]bool // canonical keys of the configured response headers
+	respVals         map[string]string // configured response headers, canonical key -> value
 }
 
 type httpEngClient struct {
@@ -135,6 +135,7 @@ type httpEngState struct {
 	spec    *httpEngRespSpec
 	seenCh  chan *httpEngSeen
 	routes  map[string]httpEngRoute // mirror of successful registrations (for rt=)
+	hit     map[*httpEngRespSpec]int // op -> the backend that received its request (recorded BEFORE it answers)
 	conns   []net.Conn
 	page    []byte
 }
@@ -203,7 +204,8 @@ func httpEngReset() {
 	if os.Getenv("HTTPENG_DEBUG") != "" {
 		log.InitLogger("console", "trace", 0, true)
 	}
-	st := &httpEngState{clients: map[int]*httpEngClient{}, seenCh: make(chan *httpEngSeen, 64), routes: map[string]httpEngRoute{}}
+	st := &httpEngState{clients: map[int]*httpEngClient{}, seenCh: make(chan *httpEngSeen, 64), routes: map[string]httpEngRoute{},
+		hit: map[*httpEngRespSpec]int{}}
 	st.rp = vhost.NewHTTPReverseProxy(vhost.HTTPReverseProxyOptions{ResponseHeaderTimeoutS: 1}, vhost.NewRouters())
 	ln, err := net.Listen("tcp", "127.0.0.1:0")
 	if err != nil {
@@ -240,8 +242,13 @@ func httpEngHdrMap(h [][2]string) map[string]string {
 }
 
 // canonical rendering of a header multimap: keys sorted, values in order, hex; framing and
-// connection-management headers are reported separately (fr=) and left out here
-func httpEngFmtHdr(h map[string][]string, star map[string]bool) string {
+// connection-management headers are reported separately (fr=) and left out here.
+// known[k] != nil marks k as volatile (Date, Content-Type: the http.Server generates them itself when
+// the handler did not set them): a value of k is rendered verbatim only if it is one of known[k] — a
+// value the backend sent or the route configures — and as "*" otherwise.  Value-based on purpose: frp's
+// own 404 / 504 answers never pass ModifyResponse, so a route that configures a response header named
+// Date still shows the server's clock on them.
+func httpEngFmtHdr(h map[string][]string, known map[string]map[string]bool) string {
 	var keys []string
 	for k := range h {
 		switch k {
@@ -258,7 +265,7 @@ func httpEngFmtHdr(h map[string][]string, star map[string]bool) string {
 	for _, k := range keys {
 		s := hx(k)
 		for _, v := range h[k] {
-			if star[k] {
+			if vals, volatile := known[k]; volatile && !vals[v] {
 				v = "*"
 			}
 			s += ":" + hx(v)
@@ -266,6 +273,25 @@ func httpEngFmtHdr(h map[string][]string, star map[string]bool) string {
 		parts = append(parts, s)
 	}
 	return strings.Join(parts, ",")
+}
+
+// the volatile response headers and the values that are NOT the server's own: what the backend put
+// into its answer (only if it was asked at all) and what the route configures
+func httpEngKnownVals(spec *httpEngRespSpec, backendAsked bool, configured map[string]string) map[string]map[string]bool {
+	known := map[string]map[string]bool{"Date": {}, "Content-Type": {}}
+	if backendAsked {
+		for _, kv := range spec.hdr {
+			if m, ok := known[http.CanonicalHeaderKey(kv[0])]; ok {
+				m[kv[1]] = true
+			}
+		}
+	}
+	for k, v := range configured {
+		if m, ok := known[k]; ok {
+			m[v] = true
+		}
+	}
+	return known
 }
 
 // ---- the recording backend (raw HTTP/1.1 on one end of a net.Pipe) ----
@@ -338,6 +364,9 @@ func (st *httpEngState) backend(id, connNo int, mode string, c net.Conn) {
 		}
 		st.mu.Lock()
 		seen.spec = st.spec
+		if seen.spec != nil {
+			st.hit[seen.spec] = id
+		}
 		st.mu.Unlock()
 		if mode == "silent" {
 			st.seenCh <- seen
@@ -758,19 +787,10 @@ func (st *httpEngState) doReq(tok []string) string {
 	} else {
 		fmt.Fprintf(&sb, "be=- rt=%s c=-", st.currentRoute(host, upath, user))
 	}
-	star := map[string]bool{}
-	have := map[string]bool{}
-	for _, kv := range spec.hdr {
-		have[http.CanonicalHeaderKey(kv[0])] = true
-	}
 	// Date / Content-Type values the http.Server generates itself (neither the backend nor the
-	// route's configured response headers supply them) are rendered as "*"
+	// route's configured response headers supply that value) are rendered as "*"
 	cur, _ := st.currentRouteRec(host, upath, user)
-	for _, k := range []string{"Date", "Content-Type"} {
-		if seen == nil || (!have[k] && !cur.respKeys[k]) {
-			star[k] = true
-		}
-	}
+	star := httpEngKnownVals(spec, seen != nil, cur.respVals)
 	uh := map[string][]string(resp.Header.Clone())
 	delete(uh, "Connection")
 	fr := "no"
@@ -860,7 +880,16 @@ func (st *httpEngState) doTunnel(kind, host, path, userTok, upTok, dnTok string,
 		if bytes.Equal(b, st.page) {
 			bn = "page"
 		}
-		return fmt.Sprintf("be=- rt=%s st=%d b=%s", rt, resp.StatusCode, bn)
+		// no tunnel. The backend records a request before it answers it, so by the time the user holds
+		// an answer it is known whether a backend received (and accepted) this very handshake.
+		st.mu.Lock()
+		hitBe, wasHit := st.hit[spec]
+		st.mu.Unlock()
+		be := "-"
+		if wasHit {
+			be = strconv.Itoa(hitBe)
+		}
+		return fmt.Sprintf("be=%s rt=%s st=%d b=%s", be, rt, resp.StatusCode, bn)
 	}
 	got := make([]byte, 0, len(dn))
 	ups := httpEngSplit(up, rounds)
@@ -976,11 +1005,11 @@ func httpEngExec(tok []string) string {
 		if err != nil {
 			return "conflict"
 		}
-		rk := map[string]bool{}
+		rv := map[string]string{}
 		for _, kv := range httpEngParseHdrs(tok[7]) {
-			rk[http.CanonicalHeaderKey(kv[0])] = true
+			rv[http.CanonicalHeaderKey(kv[0])] = kv[1]
 		}
-		st.routes[st.routeKey(d, l, u)] = httpEngRoute{id: id, domain: d, loc: l, usr: u, respKeys: rk}
+		st.routes[st.routeKey(d, l, u)] = httpEngRoute{id: id, domain: d, loc: l, usr: u, respVals: rv}
 		return "ok"
 	case "unreg":
 		d, l, u := unhx(tok[1]), unhx(tok[2]), unhx(tok[3])
@@ -1001,6 +1030,8 @@ func httpEngExec(tok []string) string {
 		return st.doSilent(unhx(tok[1]), unhx(tok[2]))
 	case "plug":
 		return st.doPlug(tok)
+	case "h2c":
+		return st.doH2C(tok)
 	}
 	return "bad-op"
 }
